@@ -436,9 +436,7 @@ class Normalizer:
                     if r is None:
                         return c
                     fd, recv = r
-                    if fd.node is fn:
-                        return c
-                    if fd.qual in me.candidates:
+                    if fd.qual in me.candidates and fd.node is not fn:
                         v = me.value_of(fd)
                         if v is None:
                             return c
